@@ -42,6 +42,10 @@ pub struct PayFilterMap<'a, F> { pub v: &'a Vec<ListsendpaysPayments>, pub f: F 
 impl PayList {
     #[verifier::external_body]
     pub fn iter(&self) -> (r: PayIter<'_>) ensures r.v@ == self.v@ { unimplemented!() }
+    #[verifier::external_body]
+    pub fn first(&self) -> (r: Option<&ListsendpaysPayments>)
+        ensures self.v@.len() == 0 ==> r is None, self.v@.len() > 0 ==> r == Some(&self.v@[0])
+    { unimplemented!() }
 }
 impl<'a> PayIter<'a> {
     #[verifier::external_body]
